@@ -141,7 +141,7 @@ def run(ctx):
             if not any(a + 1 <= n <= z for n in badset):
                 ctx.cov["traces_validated_against_impl"] += 1
         if demo is None:
-            demo = binding_demo(ctx, lines, starts, badset)
+            demo = binding_demo(ctx, lines, starts, badset, ok)
             if len(ctx.cov["samples"]) < 6:
                 ctx.sample({"recorded": [json.loads(x) for x in lines[1:3]]})
 
@@ -190,7 +190,7 @@ def classify(r, b):
     return sig, detail
 
 
-def binding_demo(ctx, lines, starts, badset):
+def binding_demo(ctx, lines, starts, badset, whole_accepted):
     """corrupt one logged response in an accepted stretch of the recorded trace: MemViewsTrace must
     reject exactly that record (a: an EXPUNGE number changed; b: one announced update dropped)"""
     best = None
@@ -206,9 +206,10 @@ def binding_demo(ctx, lines, starts, badset):
     seg = best[0]
     p = os.path.join(ctx.scratch, "excerpt.ndjson")
     open(p, "w").write("\n".join(seg) + "\n")
-    ok, at, _, _ = ctx.validate_trace(TRACE, TRACE_CFG, p)
-    if not ok:
-        raise vlib.Infra("binding demonstration: excerpt of the recorded trace is not accepted (at %s)" % at)
+    if not whole_accepted:      # the excerpt must be accepted on its own before it is corrupted
+        ok, at, _, _ = ctx.validate_trace(TRACE, TRACE_CFG, p)
+        if not ok:
+            raise vlib.Infra("binding demonstration: excerpt of the recorded trace is not accepted (at %s)" % at)
 
     def has(t):
         return lambda rec: rec.get("ev") == "cmd" and any(g[0] == t for g in rec["out"][rec["s"]])
